@@ -282,11 +282,8 @@ def execute_history(ctx, registry, clock, steps, kind):
                 step_bad.append(("notify/missing-removed", "%r stopped being a member (by %s) but no 'removed' fired"
                                  % (key, op)))
             if step_bad:
-                notified.clear()
-                notified.update(entries)          # resynchronise: one report per cause
-                bad.extend((k, w, i) for k, w in step_bad)
-                if len(bad) > 6:
-                    break
+                bad.extend((k, w, i) for k, w in step_bad)      # the first failing step ends the history: one report per cause
+                break
     finally:
         try:
             srv.sock.close()
@@ -516,6 +513,8 @@ class Prober(object):
                     ctx.count("probes_answered_only_on_retry")
                 return self.check_log(cls, witness)
             ctx.count("probe_attempts_without_answer")
+            if st != "timeout":
+                live.thread.join(1.0)         # refused / reset: the loop may be on its way out; let it finish before judging
             if not live.alive():
                 break
         if not live.alive():
@@ -815,9 +814,9 @@ def part_tcp(ctx, registry, n_random, n_silent, n_batch):
 
 def run(ctx):
     from rpyc.utils import registry
-    part_histories(ctx, registry, ctx.budget(3000, 1000000))
-    part_udp(ctx, registry, ctx.budget(150, 40000))
-    part_tcp(ctx, registry, ctx.budget(60, 12000), ctx.budget(2, 48), ctx.budget(30, 4800))
+    part_histories(ctx, registry, ctx.budget(5000, 1000000))
+    part_udp(ctx, registry, ctx.budget(300, 40000))
+    part_tcp(ctx, registry, ctx.budget(150, 12000), ctx.budget(2, 48), ctx.budget(30, 4800))
     c = ctx.counters
     if not ctx.violations:
         if c["queries_with_nonempty_reply"] == 0 or c["notifications_checked"] == 0:
@@ -842,8 +841,18 @@ def replay(ctx, w):
         for key, what, at in bad:
             ctx.violation("C18/" + key, what, dict(failing_step=at))
         return
-    if isinstance(wit, dict) and wit.get("datagram_hex") is not None and not wit["datagram_hex"].endswith("...") \
-            and wit.get("input_class") not in ("tcp/silent", "tcp/half-request"):
+    if isinstance(wit, dict) and (wit.get("requests") or wit.get("input_class") in ("tcp/silent", "tcp/half-request")):
+        p = Prober(ctx, registry, "tcp", ctx.subrng("replay"))
+        try:
+            if wit.get("requests"):
+                tcp_leak_batch(ctx, p, ctx.subrng("replay-batch"), int(wit["requests"]))
+            else:
+                tcp_silent(ctx, p, wit["input_class"][4:])
+        finally:
+            if p.live is not None:
+                p.live.stop()
+        return
+    if isinstance(wit, dict) and wit.get("datagram_hex") is not None and not wit["datagram_hex"].endswith("..."):
         p = Prober(ctx, registry, wit["transport"], ctx.subrng("replay"))
         try:
             p.hostile(wit.get("input_class", "replayed"), bytes.fromhex(wit["datagram_hex"]))
